@@ -336,11 +336,13 @@ func genBoundary(r *hxlib.Run, emit func(hxlib.Case)) {
 				}
 				lines = append(lines, "query p bd/ -")
 				op := "maintain " + pick(r, []string{"@+0", "@+1", "@+2", "@+1", "@+3"})
+				// round 1: always maintenance (every database has a record expiring in that very second);
+				// round 2: maintenance or purge (bbolt; elsewhere purge answers not-implemented)
 				switch rng.Intn(6) {
 				case 0:
 					op = "gmaintain"
 				case 1, 2:
-					if x.b == "b" || rng.Intn(6) == 0 {
+					if round == 2 && (x.b == "b" || rng.Intn(6) == 0) {
 						op = "purge p bd/ -"
 					}
 				}
@@ -432,7 +434,7 @@ func main() {
 	defer dbx.Cleanup()
 	hxlib.Main(&hxlib.Harness{
 		Prop:     "C02",
-		Rule: "a case is one history on one configuration (backend hashmap/bbolt/fstree/badger x shadow-delete x cache none/read(256)/read(2)/delayed(256)/delayed(2), interface options incl. Always* flags): 15-85 operations (put, put-new, get, exists, delete, absolute/relative expiry, flag setters, attribute insert, complete PutMany batches incl. an out-of-scope record, query and purge with random key prefixes and condition trees over all operators incl. ill-typed, sub-level and erroneous ones, maintenance with explicit and wall-clock threshold bracketed by raw storage dumps, flush/clear) over 10-15 keys sharing prefixes and path separators; records as typed struct, JSON wrapper (incl. missing and wrong-typed fields) and RAW wrapper, metadata with past/future absolute expiry, relative expiry, deletion stamps; plus regression cases for every repaired defect, iterator hand-over runs (free and with the producer held at the yield point in Finish), a real storage timeout, and purges of more than 1000 records on bbolt. Every case runs on the real database package and on the compiled Lean model; outputs are compared line by line; the monitor replays the case on an independent reference map. A case is non-trivial if it wrote and read; distinct by the hash of its lines.",
+		Rule: "a case is one history on one configuration (backend hashmap/bbolt/fstree/badger x shadow-delete x cache none/read(256)/read(2)/delayed(256)/delayed(2), interface options incl. Always* flags): 15-85 operations (put, put-new, get, exists, delete, absolute/relative expiry, flag setters, attribute insert, complete PutMany batches incl. an out-of-scope record, query and purge with random key prefixes and condition trees over all operators incl. ill-typed, sub-level and erroneous ones, maintenance with explicit and wall-clock threshold bracketed by raw storage dumps, flush/clear) over 10-15 keys sharing prefixes and path separators; records as typed struct, JSON wrapper (incl. missing and wrong-typed fields) and RAW wrapper, metadata with past/future absolute expiry, relative expiry, deletion stamps; plus regression cases for every repaired defect, iterator hand-over runs (free and with the producer held at the yield point in Finish), a real storage timeout, purges of more than 1000 records on bbolt, and clock-boundary cases (records on all four backends x both delete modes whose expiry time or deletion stamp lies one or two seconds ahead, absolute or through a TTL; the case waits for that second to begin and, within it, runs get*/query/maintenance-or-purge/get*/query per database between two clock readings; implementation only, judged when both readings are the same second: query = the keys get answers, maintenance changes no answer, purge counts and hides exactly those). Every other case runs on the real database package and on the compiled Lean model; outputs are compared line by line; the monitor replays the case on an independent reference map. A case is non-trivial if it wrote and read; distinct by the hash of its lines.",
 		Generate: generate,
 		NewExec:  func(*hxlib.Run) hxlib.Exec { return dbx.New(nil) },
 		Monitor:  monitor,
